@@ -8,7 +8,7 @@ Confirms a seeded change delivered by a red-team sub-agent, in a scratch worktre
 and then runs ./check <prop> quick against the patched worktree (VERIF_REPO) to see whether it is caught.
 On success the change is stored under /verif/seeded/<prop>-<n>/ (patch.diff, demo, meta.json with what was run).
 
-usage: seedconfirm.py <prop> <n> [--src /tmp/seed/out] [--checks C04,C18]
+usage: seedconfirm.py <prop> <n> [--src /tmp/seed/out] [--checks C04,C18] [--tag r2]
 """
 import json, os, re, shutil, subprocess, sys, tempfile
 
@@ -33,7 +33,10 @@ def main():
     prop, n = sys.argv[1], sys.argv[2]
     src = "/tmp/seed/out"
     checks = [prop]
+    tag = ""
     for i, a in enumerate(sys.argv):
+        if a == "--tag":
+            tag = sys.argv[i + 1] + "-"
         if a == "--src":
             src = sys.argv[i + 1]
         if a == "--checks":
@@ -96,7 +99,7 @@ def main():
         ok = report["a_head_demo_passes"] and report["b_patched_demo_fails"] and report["c_existing_tests_pass"]
         report["confirmed"] = ok
         if ok:
-            dst = os.path.join("/verif/seeded", f"{prop}-{n}")
+            dst = os.path.join("/verif/seeded", f"{prop}-{tag}{n}")
             os.makedirs(dst, exist_ok=True)
             # store the patch as it applies to the HEAD it was confirmed on
             rc, diff = sh("git diff", cwd=wt)
